@@ -326,12 +326,16 @@ func ruleShufflePerm(c *Ctx) {
 			continue
 		}
 		rA, roundsA := polyAtom(rObj.Name()), polyAtom(roundsObj.Name())
+		// assigns: a plain `r = e` in the list with e the wanted value; other: one with another readable value
+		assignsOther := false
 		assigns := func(list []ast.Stmt, want Poly) bool {
 			for _, st := range list {
 				if as, ok := st.(*ast.AssignStmt); ok && len(as.Lhs) == 1 && len(as.Rhs) == 1 {
 					if id, ok := as.Lhs[0].(*ast.Ident); ok && info2.ObjectOf(id) == rObj {
 						if p, ok := exprPoly(info2, as.Rhs[0], nil, nil, 0); ok && polyEq(p, want) {
 							return true
+						} else if ok {
+							assignsOther = true
 						}
 					}
 				}
@@ -346,6 +350,8 @@ func ruleShufflePerm(c *Ctx) {
 			}
 			return false
 		}
+		// breaksWhen: `if r == <p's other side> { break }`; breaksOther: an equality break on r against something else
+		breaksOther := false
 		breaksWhen := func(st ast.Stmt, p Poly) bool {
 			is, ok := st.(*ast.IfStmt)
 			if !ok || len(is.Body.List) != 1 {
@@ -355,7 +361,22 @@ func ruleShufflePerm(c *Ctx) {
 				return false
 			}
 			cut, q, op := condCutOf(info2, is.Cond, nil)
-			return cut == canonCut(p, token.EQL) && cutSide(q, op) == "eq"
+			if cut == canonCut(p, token.EQL) && cutSide(q, op) == "eq" {
+				return true
+			}
+			// only r, rounds and constants: a reading of the schedule that differs
+			if q != nil {
+				onlyKnown := q[rA.String()] != 0
+				for a := range q {
+					if a != "" && a != rA.String() && a != roundsA.String() {
+						onlyKnown = false
+					}
+				}
+				if onlyKnown {
+					breaksOther = true
+				}
+			}
+			return false
 		}
 		// start value
 		startOK := false
@@ -378,6 +399,8 @@ func ruleShufflePerm(c *Ctx) {
 				}
 			}
 		}
+		startDeviates := !startOK && assignsOther
+		assignsOther = false
 		// step and exit
 		fwdOK, bwdOK, seenDir := false, false, false
 		for _, st := range loop.Body.List {
@@ -413,8 +436,12 @@ func ruleShufflePerm(c *Ctx) {
 		switch {
 		case !seenDir:
 			c.unm(key, f2.Pos(), "direction handling written in an unrecognised form")
-		case !startOK || !fwdOK || !bwdOK:
+		case (!startOK && startDeviates) || ((!fwdOK || !bwdOK) && breaksOther):
 			c.bad(key, f2.Pos(), "round schedule deviates: forward must run r = 0..rounds-1 (r++ until r == rounds), backward r = rounds-1..0 (start at rounds-1 when !dir, stop at r == 0 before r--) [start %v forward %v backward %v]", startOK, fwdOK, bwdOK)
+		case !startOK || !fwdOK || !bwdOK:
+			// the schedule is not written as start value / step / exit test on the round counter alone (a second
+			// variable holds the last round, the exit test stands before the branch on the direction, …)
+			c.unm(key, f2.Pos(), "round schedule written in a form this clause does not read [start %v forward %v backward %v]", startOK, fwdOK, bwdOK)
 		case !zeroOK:
 			c.bad(key, f2.Pos(), "rounds == 0 is not short-circuited (rounds-1 underflows for the inverse direction)")
 		default:
